@@ -14,17 +14,25 @@ import (
 // int64(), done here with math.Trunc), and of a non-numeric type (ignored). The function itself walks a Go map: every
 // call is one more iteration order.
 func corrSchemaOrder(ctx *Ctx, n int) error {
-	names := []string{"a", "b", "B", "ab", "abc", "a_b", "z", "Z", "id", "name", "é", "0", "10", "9"}
+	names := []string{"a", "b", "B", "ab", "abc", "a_b", "z", "Z", "id", "name", "é", "0", "10", "9", "alpha", "bravo", "charlie", "delta", "echo", "foxtrot",
+		"golf", "hotel", "india", "juliet", "kilo", "lima", "mike", "november"}
 	for i := 0; i < n; i++ {
 		r := ctx.Rng.Fork()
 		k := r.Intn(7)
+		spread := 8
+		if i%4 == 3 {
+			// a large dictionary, few of whose entries carry x-order: the rest are ties that the names decide (sort.Slice is
+			// not stable, and beyond 12 elements it no longer happens to behave as if it were)
+			k = 13 + r.Intn(len(names)-12)
+			spread = 24
+		}
 		dict := map[string]*openapi3.SchemaRef{}
 		var entries []interface{}
 		for _, j := range r.Perm(len(names))[:k] {
 			nm := names[j]
 			sch := &openapi3.Schema{}
 			var o interface{}
-			switch r.Intn(8) {
+			switch r.Intn(spread) {
 			case 0, 1, 2:
 				v := float64(r.Intn(9) - 3)
 				sch.Extensions = map[string]interface{}{"x-order": v}
